@@ -63,6 +63,15 @@ def value_for(rng, vt):
     return float(rng.choice([Fraction(0), Fraction(1, 2), Fraction(-3, 4), Fraction(2), Fraction(5, 4)]))
 
 
+def append_value(rng, vt):
+    """a value for an appended column: also values the receiver's (possibly narrow) sample dtype cannot hold"""
+    if vt in ('INTEGER', 'DISCRETE'):
+        return rng.choice([rng.randint(-3, 5), rng.randint(-3, 5), 300, -200, 40000])
+    if vt == 'REAL':
+        return float(rng.choice([Fraction(1, 2), Fraction(-3, 4), Fraction(2), Fraction(5, 4), Fraction(300), Fraction(140001, 2)]))
+    return value_for(rng, vt)
+
+
 def rand_labels(rng, n):
     r = rng.random()
     if r < 0.35:
@@ -83,11 +92,14 @@ def gen_spec(rng, nmax=5, rows=(0, 1, 2, 3, 4, 6, 8)):
     sdt = {'BINARY': ['int8', 'int8', 'int32', 'int64', 'float64', 'bool', 'uint8'],
            'SPIN': ['int8', 'int8', 'int16', 'int64', 'float64', 'float32'],
            'INTEGER': ['int8', 'int16', 'int64', 'float64'], 'DISCRETE': ['int8', 'int64'],
-           'REAL': ['float64', 'float32']}[vt]
+           'REAL': ['float64', 'float32', 'float64', 'int8', 'int16']}[vt]
+    sdtype = rng.choice(sdt)
+    # a REAL sample set may be stored in a narrow integer field when its values happen to be integral
+    vf = (lambda: rng.randint(-3, 5)) if (vt == 'REAL' and sdtype.startswith('int')) else (lambda: value_for(rng, vt))
     nrows = rng.choice(rows)
     k = rng.randint(1, 3)
-    distinct = [[value_for(rng, vt) for _ in range(n)] for _ in range(k)]
-    srows = [list(rng.choice(distinct)) if rng.random() < 0.8 else [value_for(rng, vt) for _ in range(n)] for _ in range(nrows)]
+    distinct = [[vf() for _ in range(n)] for _ in range(k)]
+    srows = [list(rng.choice(distinct)) if rng.random() < 0.8 else [vf() for _ in range(n)] for _ in range(nrows)]
     edt = rng.choice(['float64', 'float64', 'float64', 'int64'])
     if edt == 'int64':
         en = [str(rng.randint(-2, 3)) for _ in range(nrows)]
@@ -96,7 +108,7 @@ def gen_spec(rng, nmax=5, rows=(0, 1, 2, 3, 4, 6, 8)):
     occ = [rng.choice([1, 1, 2, 3, 0]) for _ in range(nrows)]
     fields = rng.choice([[], [], ['f0'], ['f0', 'f1']])
     extra = {f: [str(rng.choice(ENERGIES)) for _ in range(nrows)] for f in fields}
-    return {"vartype": vt, "labels": [enc_label(l) for l in labels], "sdtype": rng.choice(sdt), "edtype": edt,
+    return {"vartype": vt, "labels": [enc_label(l) for l in labels], "sdtype": sdtype, "edtype": edt,
             "rows": srows, "energy": en, "occ": occ, "fields": fields, "extra": extra,
             "info": rng.choice([0, 0, 7, 9]), "sort_labels": rng.random() < 0.6}
 
@@ -430,7 +442,7 @@ def do_step(op, ss, ctx, case_rng_seed):
         if form == 'dict' and m != 1:
             form = 'tuple'
         vt_vals = cur_vt
-        add = [[value_for(rng, vt_vals) for _ in nls] for _ in range(m)]
+        add = [[append_value(rng, vt_vals) for _ in nls] for _ in range(m)]
         if form == 'dict':
             arg = {l: add[0][j] for j, l in enumerate(nls)}
             if len(arg) != len(nls):
